@@ -13,6 +13,7 @@ threshold is one deletion away, the trailing tombstone cull is reachable, and > 
 import operator
 import os
 import sys
+import time
 
 sys.path.insert(0, os.path.dirname(os.path.dirname(os.path.abspath(__file__))))
 from bounded.harness import Harness, main_wrapper  # noqa: E402
@@ -158,7 +159,8 @@ def fresh(m, k=2):
     return out
 
 
-def mutators(m, reduced=False):
+def mutators(m, mode=0):
+    "operation instances relative to the model state; mode 0 full, 1 reduced, 2 tiny (deletions and add only)"
     n = len(m)
     f1, f2 = fresh(m)
     P = sorted(set(p for p in (0, 1, n // 2, n - 2, n - 1) if 0 <= p < n))
@@ -174,18 +176,20 @@ def mutators(m, reduced=False):
         K1, K2 = [x for x in m if x not in (m[1 % n], c)] + [f1], m[1:]
         ops += [('add', (a,), {})] + [('remove', (m[p],), {}) for p in P] + [('discard', (m[1 % n],), {})]
         ops += [('pop', (p,), {}) for p in P] + [('pop', (-2,), {}), ('pop', (-n,), {})][:2 if n > 1 else 0]
+        if mode == 2:
+            return [o for o in ops if o[0] in ('add', 'remove', 'discard', 'pop') and o[1] != (f1,) or o[:2] == ('add', (f1,))]
         ops += [('update', (list(OA),), {}), ('update', (set(OA), tuple(OB)), {}), ('|=', (IndexedSet(OB),), {}),
                 ('intersection_update', (frozenset(K1),), {}), ('intersection_update', (seq(K1), IndexedSet(K2)), {}),
                 ('&=', (set(K2),), {}),
                 ('difference_update', (set([b, f1]),), {}), ('difference_update', ([b, f1], (a, f2)), {}),
                 ('-=', (IndexedSet([a, f2]),), {}),
                 ('symmetric_difference_update', ([c, f1, a],), {}), ('^=', (set(OA),), {})]
-        if not reduced:
+        if not mode:
             ops += [('update', (frozenset(OB),), {}), ('update', (IndexedSet(OA),), {}), ('|=', (set(OA),), {}),
                     ('intersection_update', (tuple(K2) if not big else frozenset(K2),), {}),
                     ('-=', (frozenset([b, f1]),), {}), ('^=', (IndexedSet(OA),), {}),
                     ('symmetric_difference_update', (set(OA),), {})]
-    if reduced:
+    if mode == 1:
         ops = [o for o in ops if o[0] not in ('sort', 'reverse') and o[1:] != ((), {}) or o[0] in ('pop', 'clear')]
     return ops
 
@@ -215,7 +219,7 @@ def operands_class(args):
     return c
 
 
-def pure_calls(m):
+def pure_calls(m, light=False):
     "non-mutating set algebra battery: (name, args, kind) kind in list|set|bool"
     n = len(m)
     f1, f2 = fresh(m)
@@ -243,13 +247,17 @@ def pure_calls(m):
              ('isdisjoint', (IndexedSet(OB),)), ('isdisjoint', (set(OA),))]
     if not big:
         calls += [('issubset', (list(sup) + [a],)), ('issubset', (tuple(sub),)), ('intersection', (list(sub), tuple(sup)))]
+    if big or light:   # one call per (name, operand count); the cheap predicates all when results have ~n items
+        seen = set()
+        calls = [c for c in calls if (big and c[0].startswith('is')) or
+                 not ((c[0], len(c[1])) in seen or seen.add((c[0], len(c[1]))))]
     return calls
 
 
-def check_pure(run, found):
+def check_pure(run, found, light=False):
     s, R = run.s, run.R
     m = list(R.m)
-    for name, args in pure_calls(m):
+    for name, args in pure_calls(m, light):
         margs = [list(m) if x is SELF else x for x in args]
         rargs = [s if x is SELF else x for x in args]
         if name in BINOPS:
@@ -290,8 +298,8 @@ def slice_args(n, level):
         B = [None] + list(range(0, n + 1)) + sorted(set(b for b in (-1, -2, -(n // 2), -n) if -n <= b < 0))
         return [(i, j, k) for i in B for j in B for k in (None, 2)]
     if level == 'small':
-        B = sorted(set(b for b in (0, 1, 2, n // 2, n - 1, n, -1, -(n // 2), -n) if -n <= b <= n), key=abs) + [None]
-        return [(i, j, k) for i in B for j in B for k in (None, 3)]
+        B = sorted(set(b for b in (0, 1, n // 2, n - 1, n, -1, -n) if -n <= b <= n), key=abs) + [None]
+        return [(i, j, None) for i in B for j in B] + [(i, None, k) for i in B for k in (2, 3)]
     return [(None, 5, None), (3, 9, None), (380, 390, None), (382, 388, 2), (766, 775, None), (n - 5, None, None),
             (-4, -1, None), (0, n, 397), (-n, 12, 5), (383, 386, None), (n // 2, n // 2 + 3, None)]
 
@@ -374,7 +382,8 @@ def judge(H, buf, run, depth, op=None, res=None, m_before=None):
         buf.add('iteration', 'IndexedSet.__iter__', run.flags, wit, 'seed state iterates as %s' % short(state), None)
         return False
     check_readers(run, level_for(len(run.R.m), depth), found)
-    check_pure(run, found)
+    if len(run.R.m) <= 100 or depth <= 1:
+        check_pure(run, found, light=depth >= 2)
     for clause, site, feats, expr, got, want in found:
         buf.add(clause, site, feats, wit, '%s -> %s, required %s' % (expr, short(got), short(want)),
                 run.snippet(expr, want))
@@ -396,8 +405,8 @@ def replay(seed, hist_idx):
     return run
 
 
-def explore(H, buf, seed, depth, reduced_from, frac, part):
-    run = Run(seed)
+def explore(H, buf, seed, depth, modes, frac, part):
+    run, t0 = Run(seed), time.time()
     H.ev(key=(seed[0],), nontrivial=bool(seed[2]), part=part, sample=dict(seed=seed[0], history=[]))
     if not judge(H, buf, run, 0):
         return
@@ -405,7 +414,7 @@ def explore(H, buf, seed, depth, reduced_from, frac, part):
     while stack:
         hist = stack.pop()
         base = replay(seed, hist)
-        red = len(hist) >= reduced_from
+        red = modes[len(hist)]
         nops = len(mutators(base.R.m, red))
         for i in range(nops):
             run = replay(seed, hist)
@@ -419,7 +428,8 @@ def explore(H, buf, seed, depth, reduced_from, frac, part):
                 stack.append(h2)
         if H.out_of_time(frac):
             H.note_truncated('%s: seed %r stopped by the time budget' % (part, seed[0]))
-            return
+            break
+    H.parts['seconds: ' + seed[0]] = round(time.time() - t0, 1)
 
 
 def random_histories(H, buf, seed, runs, length, rseed):
@@ -436,7 +446,7 @@ def random_histories(H, buf, seed, runs, length, rseed):
             H.ev(key=('rnd', seed[0], rseed, r, step), nontrivial=bool(run.flags), part='random')
             if not judge(H, buf, run, 2, op, res, m_before):
                 break
-        if H.out_of_time(0.95):
+        if H.out_of_time(0.72):
             H.note_truncated('random histories stopped by the time budget')
             return
 
@@ -445,23 +455,24 @@ def run():
     H = Harness('C11',
                 rule='a case is one (seed state, operation history); after its last operation the operation contract, '
                      'then every reader (iteration, len, membership, count, reversed, every index, index(x), slices, '
-                     '46+ non-mutating set-algebra calls) is compared with the list/set model; non-trivial = a non-tail '
+                     '~50 non-mutating set-algebra calls, ~25 from the second step on) is compared with the list/set model; non-trivial = a non-tail '
                      'deletion happened since the last clear (tombstones possible)',
                 bounds=dict(
-                    quick='10 directed seeds (0/3/9/17/16/26/40 items with dead runs, 3 x 3200 items with 384 runs); '
+                    quick='9 directed seeds (0/3/9/17/16/26/40 items with dead runs, 2 x 3200 items with 384 runs; thorough 3); '
                           'all histories <= 2 over ~45 operation instances (positions first/second/middle/last-but-one/'
                           'last, operands of all 5 types, 0/1/2 operands, repeated items, self) for seeds <= 40 items, '
-                          '<= 1 (+ <= 2 over the reduced alphabet) for 3200-item seeds; all indexes; slices: all bounds '
+                          '<= 1 (+ second step over add/remove/discard/pop only) for 3200-item seeds; all indexes; slices: all bounds '
                           '-n..n x steps 1,2,3 (n <= 9, depth <= 1), reduced bound sets deeper / larger',
                     thorough='as quick with histories <= 3 (third step over the reduced alphabet), <= 2 full for the '
                              '3200-item seeds, plus seeded random histories of 40 steps from every seed'))
     buf = FailBuf()
     small, big = [s for s in SEEDS if s[1] <= 100], [s for s in SEEDS if s[1] > 100]
-    nb = len(SEEDS)
+    if not H.thorough:
+        big = big[:2]       # the third one is reached from the first by one more non-adjacent removal
     for k, seed in enumerate(big):
-        explore(H, buf, seed, 2, 2 if H.thorough else 1, (0.3 if H.thorough else 0.35) * (k + 1) / len(big), 'big_seeds')
+        explore(H, buf, seed, 2, (0, 1) if H.thorough else (0, 2), (0.2 if H.thorough else 0.35) * (k + 1) / len(big), 'big_seeds')
     for k, seed in enumerate(small):
-        explore(H, buf, seed, 3 if H.thorough else 2, 2, 0.35 + (0.5 if H.thorough else 0.45) * (k + 1) / len(small),
+        explore(H, buf, seed, 3 if H.thorough else 2, (0, 0, 1), (0.2 if H.thorough else 0.35) + 0.45 * (k + 1) / len(small),
                 'small_seeds')
     if H.thorough:
         for k, seed in enumerate(SEEDS):
